@@ -27,6 +27,8 @@ pub struct RxCtrState {
 }
 
 impl RxCtrState {
+    // Sessions start unsynced; only the group counter store (and the tests) start from a counter
+    #[cfg_attr(not(feature = "groups"), allow(dead_code))]
     pub const fn new(max_ctr: u32) -> Self {
         Self {
             synced: true,
